@@ -68,11 +68,22 @@ func runCase(rec *mon.Recorder, c int) {
 	// every fourth tie-rich case draws from the edges of the non-negative floats instead of small integers:
 	// negative zero (equal to zero, accepted by Push), zero, the smallest subnormal, one, the largest finite value
 	edges := []float32{float32(math.Copysign(0, -1)), 0, math.SmallestNonzeroFloat32, 1, math.MaxFloat32, math.MaxFloat32}
+	// every fourth tie-rich case (the others of them) draws from a cluster of six neighbouring float32 values:
+	// distinct priorities that differ in the last bit (what distances of near-duplicate vectors look like)
+	clusterBase := []float32{1, 0.1, 1e-30, 16777216, 3e38, math.SmallestNonzeroFloat32 * 3}[(c/4)%6]
+	var cluster [6]float32
+	cluster[0] = clusterBase
+	for i := 1; i < len(cluster); i++ {
+		cluster[i] = math.Nextafter32(cluster[i-1], float32(math.Inf(1)))
+	}
 	prio := func() float32 {
 		if tieRich {
 			v := rng.Intn(6)
 			if c%4 == 1 {
 				return edges[v]
+			}
+			if c%4 == 3 {
+				return cluster[v]
 			}
 			return float32(v)
 		}
